@@ -339,6 +339,7 @@ def oracle_case(params, evlines):
     hold = params.get("hold", "1") == "1"; polite = params.get("polite", "1") == "1"
     info = chain_info(stages, hold, polite)
     tin, tout = [], []
+    tout_cycle = []
     prev = None
     offered_last = None
     hold_break = None
@@ -361,7 +362,7 @@ def oracle_case(params, evlines):
         if e["v"] and rin:
             tin.append((e["d"], e["e"], e["m"])); st["in_transfers"] += 1
         if vo and e["r"]:
-            tout.append(ob); st["out_transfers"] += 1
+            tout.append(ob); tout_cycle.append(idx); st["out_transfers"] += 1
         if e["v"] and rin and vo and e["r"]:
             st["in_and_out_same_cycle"] += 1
         if vo and not e["r"]:
@@ -389,7 +390,7 @@ def oracle_case(params, evlines):
         exp_ext = f_chain(stages, tin + ([offered_last] if offered_last else []))
         if tout != exp_ext[:len(tout)]:
             k = next(i for i in range(len(tout)) if i >= len(exp_ext) or tout[i] != exp_ext[i])
-            return dict(event=None, what=f"output transfer #{k} is {tout[k]}, the accepted input sequence mapped through the chain gives "
+            return dict(event=tout_cycle[k], what=f"output transfer #{k} (cycle {tout_cycle[k]}) is {tout[k]}, the accepted input sequence mapped through the chain gives "
                         f"{exp_ext[k] if k < len(exp_ext) else 'nothing (more beats came out than went in)'} (loss / duplication / reordering / eop or meta on the wrong beat)",
                         out_transfers=tout[max(0, k - 3):k + 2], expected=exp_ext[max(0, k - 3):k + 2]), st, obs
         if not info["has_fifo"] and len(exp_now) - len(tout) > info["cap"]:
